@@ -122,8 +122,10 @@ def run_history(history):
     np.random.seed(history.get("rng_seed", 0) % (2**32))
     if wf.get("cache_shrink"):
         seams.cache_shrink(wf["cache_shrink"])
+    seams.knobs_default()
     sessions = [make_session(s) for s in history["sessions"]]
     results = []
+    knob_canaries_left = 1
     fired = {}
     monitors = []
     contexts = []
@@ -162,8 +164,17 @@ def run_history(history):
 
             kw["between"] = hook
         scrambled = any(p["kind"] == "settings_scramble" for p in op.get("pre", []))
+        knobs0 = seams.knobs()
         res = run_step(sess, op["step"], cap, apply=(last_sid != op["sid"] or scrambled), **kw)
         last_sid = op["sid"]
+        knobs1 = seams.knobs()
+        if knobs1 != knobs0:
+            res["knobs_changed"] = {k: [knobs0[k], knobs1[k]] for k in knobs0 if knobs0[k] != knobs1[k]}
+            if knob_canaries_left > 0 and res["status"] in ("ok", "refused"):
+                # the step changed an interpreter-global setting: what the next user of the process would see
+                knob_canaries_left -= 1
+                res["knob_canary"] = run_knob_canaries(cap)
+                last_sid = None      # the canaries applied their own (default) options
         res["plog"] = plog
         res["settings_as_owned"] = _owned(sess)
         if not res["settings_as_owned"] and sess.spec["kind"] != "cli" and res["status"] in ("ok", "refused") and canaries_left > 0:
@@ -192,6 +203,27 @@ CANARIES = [
 ]
 
 
+# analyses whose *outcome* depends on an interpreter-global knob: run right after a step that changed one
+KNOB_CANARIES = [
+    # prints 3**12000 (5726 digits) through the cumulant printer: refused under the default integer-text limit
+    {"kind": "action", "files": [{"text": "x = 1\nwhile true:\n    x = 3*x\nend\n"}], "namespace": {"goals": ["k1(x)"], "at_n": 12000}, "options": {}},
+    # 200 nested if-statements: normalisation recurses past the default recursion limit
+    {"kind": "lib", "program": {"text": "x = 0\nf = 0\nwhile true:\n    f = Bernoulli(1/2)\n" + "    if f == 1:\n" * 200 + "    x = x + 1\n" + "    end\n" * 200 + "end\n"},
+     "goals": [{"monom": "x", "kind": "raw"}], "api": "common"},
+]
+
+
+def run_knob_canaries(cap):
+    out = []
+    for spec in KNOB_CANARIES:
+        s = make_session(dict(spec))
+        steps = {}
+        for i, name in enumerate(s.step_names()):
+            steps[name] = run_step(s, name, cap, apply=(i == 0))
+        out.append(steps)
+    return out
+
+
 def run_canaries(cap):
     out = []
     for spec in CANARIES:
@@ -217,6 +249,7 @@ def run_unit(unit):
 
     _random.seed(0)
     np.random.seed(0)
+    seams.knobs_default()
     sess = make_session(unit["spec"])
     out = {}
     for i, name in enumerate(sess.step_names()):
